@@ -264,6 +264,17 @@ def run_numeric(case):
         raise Violation("random_permutation is not a permutation matrix", key="random-permutation")
     if not np.array_equal(Pm, lw.random_permutation(n, seed)):
         raise Violation("random_permutation not reproducible for a fixed seed", key="random-reproducible")
+    # "reproducible" includes: what a caller does to a matrix it was given cannot change what the next call returns
+    for name, fn, first in (("random_unitary", lw.random_unitary, U), ("random_permutation", lw.random_permutation, Pm)):
+        keep = np.array(first, copy=True)
+        try:
+            first[...] = 0
+        except (ValueError, TypeError):
+            pass                      # a read-only array is fine too
+        again = fn(n, seed)
+        if not np.array_equal(again, keep):
+            raise Violation(f"{name}({n}, seed={seed}) returns something else after an earlier result was "
+                            f"overwritten in place by the caller", key="random-result-aliased")
     er("bad-seed-unitary", (TypeError,), lw.random_unitary, n, case["badseed"])
     er("bad-seed-permutation", (TypeError,), lw.random_permutation, n, case["badseed"])
     return {"nontrivial": True, "labels": []}
